@@ -4,6 +4,9 @@ from ..report import Result
 
 NEEDS = ("dev",)
 VARIANTS = [(p, k) for p in ("none", "existing") for k in (False, True)]
+# key files the daemon cannot load (another client's RSA-3072 pair, a truncated or empty key file): with kp_reuse the key is read first
+VARIANTS += [("foreign", True), ("garbage-key", True), ("empty-key", True)]
+THOROUGH_VARIANTS = [("foreign", False), ("foreign-rsa", True)]
 
 
 def judge(req, obs):
@@ -13,7 +16,7 @@ def judge(req, obs):
 def run(ctx):
     res = Result("model_checking")
     res.rule = ("E1: every single deviation (full fault alphabet per request kind + hook exits) at every choice point of an "
-                "issuance, x {no pair, existing pair} x kp_reuse; thorough adds bound 2 over a reduced alphabet and bound 3 "
+                "issuance, x {no pair, existing pair} x kp_reuse, plus existing pairs whose key file the daemon cannot load (foreign curve, truncated, empty; kp_reuse on); thorough adds bound 2 over a reduced alphabet and bound 3 "
                 "over {badNonce, cut}. An outcome is the attempt result + file-state class; a state is (variant, deviations so far, position).")
     plans = [("full", [e1.FULL], 1)]
     if not ctx.quick:
@@ -24,7 +27,7 @@ def run(ctx):
         idsets.append([cfg.ident("a.example"), cfg.ident("b.example", "dns-01")])
     bounds = {}
     for ids in idsets:
-        for pair, kp in VARIANTS:
+        for pair, kp in VARIANTS + ([] if ctx.quick else THOROUGH_VARIANTS):
             req = flows.issuance_request(pair=pair, kp_reuse=kp, identifiers=ids)
             variant = "pair=%s|kp_reuse=%s|n_id=%d" % (pair, kp, len(ids or [1]))
             ncp = flows.determinism_selftest(ctx.pool, req)
